@@ -220,3 +220,93 @@ func c10(c *an.Ctx) {
 		r.Floor(2, "row parsers with MarshalPrefix and EqualPrefix")
 	}
 }
+
+func init() {
+	old := All["C10"].Run
+	All["C10"].Run = func(c *an.Ctx) {
+		old(c)
+		c10cacheKey(c)
+	}
+	All["C10"].Rules += " R5"
+}
+
+// c10cacheKey — C10.R5.  The tag-filter cache maps the marshalled predicate to the matching
+// series ids.  The search between the lookup and the store mutates the filter it was given
+// (a negative filter is evaluated as its positive twin and complemented).  The result must
+// therefore be stored under the very key bytes the lookup missed on, marshalled once BEFORE
+// the search; a key rebuilt from the filter afterwards files `tag != 'v'` under `tag = 'v'`,
+// and the positive predicate then returns the complement set until the next flush.
+func c10cacheKey(c *an.Ctx) {
+	const T = "engine/index/tsi"
+	r := c.Rule("C10.R5", "K-ARGROLE", T+": a tag-filter result is cached under the key bytes of the lookup that missed (key marshalled once, before the search)")
+	get := obj(r, T+":IndexCache.getFromTagFilterCache")
+	put := obj(r, T+":IndexCache.putToTagFilterCache")
+	mk := obj(r, T+":marshalTagFilterKey")
+	if r.Failed() {
+		return
+	}
+	isBytes := func(t types.Type) bool {
+		sl, ok := t.Underlying().(*types.Slice)
+		if !ok {
+			return false
+		}
+		b, ok := sl.Elem().Underlying().(*types.Basic)
+		return ok && b.Kind() == types.Byte
+	}
+	if ps := put.Type().(*types.Signature).Params(); ps.Len() < 1 || !isBytes(ps.At(0).Type()) {
+		r.Fail("putToTagFilterCache: key parameter", "-", "putToTagFilterCache no longer takes the key bytes from its caller: the key is rebuilt at store time, after the search has modified the filter")
+	}
+	if gs := get.Type().(*types.Signature).Params(); gs.Len() < 2 || !isBytes(gs.At(1).Type()) {
+		r.Fail("getFromTagFilterCache: key parameter", "-", "getFromTagFilterCache no longer takes the key bytes from its caller")
+	}
+	n := 0
+	byCaller := map[*an.FuncSrc][2][]an.CallSite{}
+	for _, cs := range c.P.CallsTo(get) {
+		if cs.Caller != nil {
+			e := byCaller[cs.Caller]
+			e[0] = append(e[0], cs)
+			byCaller[cs.Caller] = e
+		}
+	}
+	for _, cs := range c.P.CallsTo(put) {
+		if cs.Caller != nil {
+			e := byCaller[cs.Caller]
+			e[1] = append(e[1], cs)
+			byCaller[cs.Caller] = e
+		}
+	}
+	for caller, e := range byCaller {
+		if len(e[1]) == 0 {
+			continue
+		}
+		f := c.P.Fn(caller)
+		if f == nil {
+			continue
+		}
+		n += len(e[1])
+		if len(e[0]) == 0 {
+			r.Fail(caller.Name()+": store without lookup", c.P.Pos(e[1][0].Call.Pos()), "%s stores into the tag-filter cache without having looked the key up", caller.Name())
+			continue
+		}
+		if len(e[0][0].Call.Args) < 2 {
+			continue
+		}
+		gk := f.Canon(e[0][0].Call.Args[1])
+		for _, p := range e[1] {
+			if len(p.Call.Args) < 1 {
+				continue
+			}
+			if pk := f.Canon(p.Call.Args[0]); pk != gk {
+				r.Fail(caller.Name()+": store key differs from lookup key", c.P.Pos(p.Call.Pos()), "%s looks the cache up with %s but stores under %s", caller.Name(), gk, pk)
+			}
+		}
+		// the key is marshalled before the lookup and not again before the store
+		mks := f.Find(an.MCall("marshalTagFilterKey", mk))
+		gets := f.Find(an.MCall("getFromTagFilterCache", get))
+		if mks.Len() > 0 && gets.Len() > 0 {
+			f.NeverAfter(r, gets, mks, "the key is not marshalled again after the lookup")
+		}
+	}
+	r.AddSites(n)
+	r.Floor(2, "tag-filter cache stores")
+}
